@@ -853,6 +853,9 @@ pub enum Delivery {
     /// the whole word and starts reading only once the server has gone idle, i.e. is blocked in the
     /// middle of a reply that does not fit into the socket buffers
     LateReader(usize),
+    /// whole delivery, on a server whose PREVIOUS connection died in the middle of a request
+    /// (nothing of a dead connection may reach the next one)
+    AfterDead,
 }
 
 pub fn huge_value(n: usize) -> Vec<u8> {
@@ -861,7 +864,7 @@ pub fn huge_value(n: usize) -> Vec<u8> {
 
 fn caps_for(d: &Delivery, n: usize) -> Option<Vec<usize>> {
     match d {
-        Delivery::Whole | Delivery::LockStep | Delivery::CutWait(_) | Delivery::LateReader(_) => None,
+        Delivery::Whole | Delivery::LockStep | Delivery::CutWait(_) | Delivery::LateReader(_) | Delivery::AfterDead => None,
         Delivery::ByteWise => Some(vec![1; n]),
         Delivery::Cuts(c) => {
             let mut v = vec![];
@@ -900,6 +903,17 @@ pub fn c06_case(dir: &Path, word: &[Req], delivery: &Delivery) -> Result<String,
             expected.extend_from_slice(&enc(&r.apply(&mut m2)));
         }
         model = m2;
+    }
+    if let Delivery::AfterDead = delivery {
+        for dead in [&b"*3\r\n$3\r\nSET\r\n$1\r\na\r\n$5\r\nhel"[..], b"*2\r\n$3\r\nGET\r\n$1", b"*", b"!bad\r\n*2\r\n$3\r\nDEL\r\n$1\r\nb\r"] {
+            let e0 = srv.epoch();
+            if let Ok(mut d) = srv.connect() {
+                let _ = d.write_all(dead);
+                srv.quiesce(e0);
+                drop(d);
+                srv.quiesce(srv.epoch());
+            }
+        }
     }
     let res = (|| -> Result<String, (String, String)> {
         let mut c = srv.connect().map_err(|e| ("MACHINERY".to_string(), format!("connect: {}", e)))?;
@@ -1064,6 +1078,9 @@ fn c06(job: &Job, sh: &mut Shard, t0: Instant) {
         let has_big = n > 2000;
         cases.push((w.clone(), Delivery::Whole));
         cases.push((w.clone(), Delivery::LockStep));
+        if w.len() <= 2 && !has_big {
+            cases.push((w.clone(), Delivery::AfterDead));
+        }
         if !has_big {
             cases.push((w.clone(), Delivery::ByteWise));
         }
@@ -1206,7 +1223,7 @@ fn c06(job: &Job, sh: &mut Shard, t0: Instant) {
             sh.notes.insert(format!("stopped (time cap or 6 violations in this shard) after {} of {} cases", i, total));
             break;
         }
-        let case = json!({"engine": "net", "kind": "c06", "word": w.iter().map(|r| r.to_json()).collect::<Vec<_>>(), "word_text": w.iter().map(|r| r.show()).collect::<Vec<_>>(), "delivery": format!("{:?}", d), "cuts": match &d { Delivery::Cuts(c) => json!(c), Delivery::ByteWise => json!("bytewise"), Delivery::LockStep => json!("lockstep"), Delivery::Whole => json!("whole"), Delivery::CutWait(c) => json!({"cut_wait": c}), Delivery::LateReader(n) => json!({"late_reader_value_bytes": n}) }});
+        let case = json!({"engine": "net", "kind": "c06", "word": w.iter().map(|r| r.to_json()).collect::<Vec<_>>(), "word_text": w.iter().map(|r| r.show()).collect::<Vec<_>>(), "delivery": format!("{:?}", d), "cuts": match &d { Delivery::Cuts(c) => json!(c), Delivery::ByteWise => json!("bytewise"), Delivery::LockStep => json!("lockstep"), Delivery::Whole => json!("whole"), Delivery::CutWait(c) => json!({"cut_wait": c}), Delivery::LateReader(n) => json!({"late_reader_value_bytes": n}), Delivery::AfterDead => json!("after_dead") }});
         if i % 32 == job.shard {
             job.progress(&case);
         }
@@ -1216,7 +1233,7 @@ fn c06(job: &Job, sh: &mut Shard, t0: Instant) {
         sh.nontrivial.insert(wkey);
         sh.states.insert(fnv(format!("{:?}{:?}", w, d).as_bytes()));
         match c06_case(&dir, &w, &d) {
-            Ok(o) => sh.outcome(format!("{} / {}", o, match d { Delivery::Whole => "whole", Delivery::ByteWise => "bytewise", Delivery::Cuts(ref c) if c.len() == 1 => "1 cut", Delivery::Cuts(_) => "2 cuts", Delivery::LockStep => "lockstep", Delivery::CutWait(_) => "cut+wait", Delivery::LateReader(_) => "late reader" })),
+            Ok(o) => sh.outcome(format!("{} / {}", o, match d { Delivery::Whole => "whole", Delivery::ByteWise => "bytewise", Delivery::Cuts(ref c) if c.len() == 1 => "1 cut", Delivery::Cuts(_) => "2 cuts", Delivery::LockStep => "lockstep", Delivery::CutWait(_) => "cut+wait", Delivery::LateReader(_) => "late reader", Delivery::AfterDead => "after dead connections" })),
             Err((class, msg)) if class == "MACHINERY" => sh.machinery_errors.push(format!("C06 {}: {}", msg, case["word_text"])),
             Err((class, msg)) => {
                 // confirm once before reporting
@@ -1261,6 +1278,7 @@ pub fn replay(prop: &str, case: &Value) -> Vec<Violation> {
                 Value::Array(a) => Delivery::Cuts(a.iter().map(|x| x.as_u64().unwrap() as usize).collect()),
                 Value::String(s) if s == "bytewise" => Delivery::ByteWise,
                 Value::String(s) if s == "lockstep" => Delivery::LockStep,
+                Value::String(s) if s == "after_dead" => Delivery::AfterDead,
                 Value::Object(o) if o.contains_key("cut_wait") => Delivery::CutWait(o["cut_wait"].as_u64().unwrap_or(1) as usize),
                 Value::Object(o) if o.contains_key("late_reader_value_bytes") => Delivery::LateReader(o["late_reader_value_bytes"].as_u64().unwrap_or(1) as usize),
                 _ => Delivery::Whole,
